@@ -347,20 +347,84 @@ func isSliceOrIface(t types.Type) bool {
 	return false
 }
 
-// controlDeps returns the If instructions that block b is control-dependent on (approximation:
-// b is reachable from exactly one successor of the If without passing the If's block again).
+// postDominators computes, for every block, the set of blocks that post-dominate it (iterative set algorithm with a
+// virtual exit joining all blocks without successors).
+func postDominators(fn *ssa.Function) map[*ssa.BasicBlock]map[*ssa.BasicBlock]bool {
+	all := map[*ssa.BasicBlock]bool{}
+	for _, b := range fn.Blocks {
+		all[b] = true
+	}
+	pd := map[*ssa.BasicBlock]map[*ssa.BasicBlock]bool{}
+	for _, b := range fn.Blocks {
+		if len(b.Succs) == 0 {
+			pd[b] = map[*ssa.BasicBlock]bool{b: true}
+		} else {
+			m := map[*ssa.BasicBlock]bool{}
+			for x := range all {
+				m[x] = true
+			}
+			pd[b] = m
+		}
+	}
+	changed := true
+	for changed {
+		changed = false
+		for k := len(fn.Blocks) - 1; k >= 0; k-- {
+			b := fn.Blocks[k]
+			if len(b.Succs) == 0 {
+				continue
+			}
+			var inter map[*ssa.BasicBlock]bool
+			for _, s := range b.Succs {
+				if inter == nil {
+					inter = map[*ssa.BasicBlock]bool{}
+					for x := range pd[s] {
+						inter[x] = true
+					}
+				} else {
+					for x := range inter {
+						if !pd[s][x] {
+							delete(inter, x)
+						}
+					}
+				}
+			}
+			inter[b] = true
+			if len(inter) != len(pd[b]) {
+				pd[b] = inter
+				changed = true
+			}
+		}
+	}
+	return pd
+}
+
+var pdomMemo = map[*ssa.Function]map[*ssa.BasicBlock]map[*ssa.BasicBlock]bool{}
+
+// controlDeps returns the If instructions that block b is control-dependent on: b post-dominates one successor of the
+// If but does not strictly post-dominate the If's block (Ferrante/Ottenstein/Warren).
 func controlDeps(b *ssa.BasicBlock) []*ssa.If {
 	fn := b.Parent()
+	pd, ok := pdomMemo[fn]
+	if !ok {
+		pd = postDominators(fn)
+		pdomMemo[fn] = pd
+	}
 	var out []*ssa.If
 	for _, x := range fn.Blocks {
 		iff, ok := x.Instrs[len(x.Instrs)-1].(*ssa.If)
 		if !ok {
 			continue
 		}
-		r0 := core.Reach(x.Succs[0], nil, func(y *ssa.BasicBlock) bool { return y == x })[b]
-		r1 := core.Reach(x.Succs[1], nil, func(y *ssa.BasicBlock) bool { return y == x })[b]
-		if r0 != r1 {
-			out = append(out, iff)
+		strictly := pd[x][b] && x != b
+		if strictly {
+			continue
+		}
+		for _, s := range x.Succs {
+			if pd[s][b] {
+				out = append(out, iff)
+				break
+			}
 		}
 	}
 	return out
